@@ -106,7 +106,9 @@ def run(ctx, module, cfg, *, spec_dir=SPEC, workers=None, simulate=None, depth=N
         jopts.append("-Dtlc2.tool.queue.IStateQueue=StateDeque")
     jopts.append("-Xss%s" % (xss or "64m"))
     jopts.append("-Xmx%s" % (heap or "6g"))
-    cmd = ["java", "-XX:+UseParallelGC"] + jopts + ["-cp", JAR + ":" + DEPS, "tlc2.TLC",
+    # keep each JVM's helper threads modest: many checks/builders share the 16 cores
+    gcthreads = str(max(2, min(8, int(workers) if str(workers).isdigit() else 8)))
+    cmd = ["java", "-XX:+UseParallelGC", "-XX:ParallelGCThreads=" + gcthreads, "-XX:CICompilerCount=2"] + jopts + ["-cp", JAR + ":" + DEPS, "tlc2.TLC",
            "-metadir", os.path.join(d, "meta"), "-noGenerateSpecTE", "-workers", str(workers), "-config", cfg]
     if coverage:
         cmd += ["-coverage", "1"]
